@@ -457,6 +457,7 @@ type c07PsOpt struct {
 	vType, aType   int  // PSM stream types, -1 = absent
 	psmEvery       bool // PSM + system header before every key frame (else only before the first frame)
 	ptsAll         bool // every PES of a frame carries the PTS (else only the first)
+	zeroTs         bool // the first frame's PTS is exactly 0 (a publisher whose 90 kHz counter starts at 0)
 	noPts          bool // no PTS at all: frames are delimited by the RTP timestamp
 	withDts        bool
 	maxPes         int // elementary bytes per PES packet
@@ -1026,7 +1027,11 @@ func c07GenPs(g *G, avc, hv c07Params) {
 			ps = hv
 			o.vType = 0x24
 		}
-		vf := c07Video(r, ps, n, uint32(r.Intn(1<<20)), 3600, 40, inband, 1+r.Intn(4))
+		ts0 := uint32(r.Intn(1 << 20))
+		if o.zeroTs {
+			ts0 = 0
+		}
+		vf := c07Video(r, ps, n, ts0, 3600, 40, inband, 1+r.Intn(4))
 		var frames []c07Frame
 		o.aType = -1
 		var af []c07Frame
@@ -1102,6 +1107,14 @@ func c07GenPs(g *G, avc, hv c07Params) {
 		o := base
 		o.noPts = true
 		gen("corpus-nopts", false, "", o, 6, false, false, 0, true)
+		{
+			oz := base
+			oz.zeroTs = true
+			gen("corpus-pts-zero", false, "", oz, 5, false, false, 0, true)
+			gen("corpus-pts-zero", true, "", oz, 5, false, true, 0, true)
+			gen("corpus-pts-zero", false, "pcma", oz, 5, false, false, 0, true)
+			gen("corpus-pts-zero", false, "aac", oz, 5, false, true, 0, true)
+		}
 		gen("corpus-nopts", false, "pcmu", o, 6, false, false, 0, true)
 	}
 	{
@@ -1134,7 +1147,7 @@ func c07GenPs(g *G, avc, hv c07Params) {
 	// ---- random
 	for i := 0; i < g.scale(150, 4000); i++ {
 		o := c07PsOpt{
-			psmEvery: r.Bool(), ptsAll: r.Bool(), noPts: r.Intn(8) == 0, withDts: r.Intn(4) == 0,
+			psmEvery: r.Bool(), ptsAll: r.Bool(), zeroTs: r.Intn(6) == 0, noPts: r.Intn(8) == 0, withDts: r.Intn(4) == 0,
 			maxPes: r.Pick(1<<16, 1<<16, 64, 24, 9), stuffing: r.Bool(), startCode3: r.Intn(3) == 0, allStartCode3: r.Intn(8) == 0,
 			packEnd: r.Intn(4) == 0, private: r.Intn(4) == 0, unitsPerRtp: r.Pick(0, 0, 20, 60, 1400),
 		}
